@@ -457,17 +457,41 @@ def run(prog, rep):
                     for k in c.keywords) for c in caps_calls)
 
     def is_unit_count(e):
-        # the number of devices behind the port: len(<labels>.bdf) (1 when there is no such list)
+        # the number of devices behind the port: len(<labels>.bdf) when bdf is a LIST of addresses, 1 otherwise (a single
+        # address is a string, whose length is not a device count)
         if isinstance(e, ast.Name):
             defs = [a.value for a in ast.walk(loop) if isinstance(a, ast.Assign) and any(isinstance(t, ast.Name) and t.id == e.id for t in a.targets)]
             return bool(defs) and all(is_unit_count(d) for d in defs)
-        return any(isinstance(x, ast.Call) and isinstance(x.func, ast.Name) and x.func.id == 'len' and x.args and
-                   isinstance(x.args[0], ast.Attribute) and x.args[0].attr == 'bdf' for x in ast.walk(e))
+        lens = [x for x in ast.walk(e) if isinstance(x, ast.Call) and isinstance(x.func, ast.Name) and x.func.id == 'len' and x.args and
+                isinstance(x.args[0], ast.Attribute) and x.args[0].attr == 'bdf']
+        if not lens:
+            return False
+        # the len() is taken only under "bdf is a list"
+        guard_src = e
+        if isinstance(e, ast.IfExp):
+            guard_src = e.test
+        else:
+            st_ = lens[0]
+            conds_ = []
+            while st_ is not None and st_ is not loop:
+                par_ = getattr(st_, '_parent', None)
+                if isinstance(par_, ast.If) and any(st_ is b_ for b_ in par_.body):
+                    conds_.append(par_.test)
+                st_ = par_
+            guard_src = ast.BoolOp(op=ast.And(), values=conds_) if conds_ else None
+        listy = guard_src is not None and any(isinstance(x, ast.Call) and isinstance(x.func, ast.Name) and x.func.id == 'isinstance' and len(x.args) == 2 and
+                                              isinstance(x.args[0], ast.Attribute) and x.args[0].attr == 'bdf' and 'list' in ast.unparse(x.args[1])
+                                              for x in ast.walk(guard_src))
+        if not listy:
+            unit_notes.append('the unit count is len(bdf) without testing that bdf is a list: a single PCI address (a string) gives its number of characters')
+        return listy
+    unit_notes = []
     unit_ok = all(any(k.arg == 'unit' and is_unit_count(k.value) for k in c.keywords) for c in caps_calls) and bool(caps_calls)
     rep.instance('R3', f'{gq}: capacities built by {[norm(c) for c in caps_calls]}')
     if not bw_ok or not unit_ok:
         rep.violation('R3', loc(cmod, loop), gq, 'interface capacities not taken from the row / unit count',
-                      'the port speed must be int(<catalogued speed of that port>) and the unit count the number of devices')
+                      'the port speed must be int(<catalogued speed of that port>) and the unit count the number of devices' +
+                      (' (' + unit_notes[0] + ')' if unit_notes else ''))
     # row copying: the row is the catalogue entry selected by the lookup (a search loop, or next() over a generator); the
     # sliver is the fresh ComponentSliver
     genv2 = local_env(gc)
@@ -593,6 +617,8 @@ def run(prog, rep):
 
 
 MUTANTS = [
+    {'name': 'unit-count-from-string-bdf', 'file': 'fim/slivers/component_catalog.py', 'rule': 'R3',
+     'find': 'units = len(lab.bdf) if lab is not None and isinstance(lab.bdf, list) else 1', 'replace': 'units = len(lab.bdf) if lab is not None and lab.bdf is not None else 1'},
     {'name': 'filter-drops-disk', 'file': 'fim/slivers/instance_catalog.py', 'rule': 'R1',
      'find': 'x.core >= cap.core and x.ram >= cap.ram and x.disk >= cap.disk', 'replace': 'x.core >= cap.core and x.ram >= cap.ram'},
     {'name': 'filter-strict-greater', 'file': 'fim/slivers/instance_catalog.py', 'rule': 'R1',
